@@ -39,6 +39,21 @@ CHECKS = {
             "Euler functions of one generated module; direct oracle: slot-by-slot bit-for-bit comparison for random subsets incl. "
             "foreign names, random delta, through get_code (add_schemes).",
             "Gallina model + verified validator on three generated functions + metamorphic execution"),
+    "C08": ("Theorem load_sound (what the loader mirror accepts has no name with two differing definitions, of any kind, in any "
+            "component; every derivative has a declared state in its component; every state a derivative; every referenced symbol "
+            "is defined) + validated code never reads an undefined value + computed rejection of each fault kind; correspondence: "
+            "outcome class of the implementation vs the mirror on every fault-injected text (items taken from the real parse); direct: "
+            "a faulty text that yields code is a violation.",
+            "Gallina mirror of the loader with soundness theorem + fault-injection differential execution"),
+    "C09": ("Theorems (every layout table and generated function of the mirror is invariant under any permutation of the lists "
+            "the model consists of, i.e. under any set iteration order; name sorting is a function of the multiset; the name order is "
+            "a total order) + correspondence: layout in fresh processes = hash-free mirror; direct: byte digests of numpy/jax/C code "
+            "and layouts across fresh processes with different PYTHONHASHSEED, in-process histories, held scheme functions.",
+            "Gallina model with permutation-invariance theorems + cross-process differential execution"),
+    "C10": ("Theorems (for two presentations of one set of definitions all layout tables and generated functions of the mirror "
+            "coincide; definitions are found by name) - partial: that the loader mirror maps permuted item lists to equivalent models is "
+            "checked by execution - + direct: == , bytes of numpy/C/jax code and layouts for permuted blocks / entries / lines.",
+            "Gallina model with permutation-invariance theorems + metamorphic execution on permuted texts"),
 }
 
 def main():
